@@ -128,6 +128,15 @@ def check(c):
                     pats.append(n.value)
         else:
             pats.append(p)
+        # a conditional pattern (`a if c else b`): every arm is a pattern
+        flat = []
+        while pats:
+            x = pats.pop()
+            if isinstance(x, ast.IfExp):
+                pats += [x.body, x.orelse]
+            else:
+                flat.append(x)
+        pats = flat
         c.floor('C13.regex', 'pattern definitions', len(pats), 1)
         for pv in pats:
             ok = False
